@@ -438,11 +438,13 @@ func c14ScalarMult(r *Report, p *Prog, tables map[string]*tabSem) {
 // all-ones / zero word and the result limbs must be exactly the limbs of entry index-1 (index 0: the receiver is kept);
 // for the affine variant Z becomes the constant one.
 func c14Select(r *Report, p *Prog) {
-	fn := p.MustFunc(r, "sm2/internal.(*SM2Point).multiSelectConditioned")
-	if fn == nil {
+	// the exported entry points are evaluated (whatever helper they share is followed from there)
+	fnXY := p.MustFunc(r, "sm2/internal.(*SM2Point).MultiSelectXY")
+	fnXYZ := p.MustFunc(r, "sm2/internal.(*SM2Point).MultiSelectXYZ")
+	if fnXY == nil || fnXYZ == nil {
 		return
 	}
-	pos := p.Pos(fn.Pos())
+	pos := p.Pos(fnXY.Pos())
 	type cfg struct {
 		hasZ  bool
 		width int
@@ -518,7 +520,11 @@ func c14Select(r *Report, p *Prog) {
 				st.heap[rowsID] = rowsArr
 				cell := e.newID()
 				st.heap[cell] = &hArray{elems: []sVal{sSlice{rowsID, 0, rows}}}
-				rets := e.runFunc(fn, st, []sVal{sPtr{qid, -1}, sPtr{cell, 0}, sBool{c.hasZ}, sInt{big.NewInt(int64(c.width))}, sInt{big.NewInt(int64(bits))}})
+				fn := fnXY
+				if c.hasZ {
+					fn = fnXYZ
+				}
+				rets := e.runFunc(fn, st, []sVal{sPtr{qid, -1}, sPtr{cell, 0}, sInt{big.NewInt(int64(c.width))}, sInt{big.NewInt(int64(bits))}})
 				results[ci].runs++
 				if len(e.errs) > 0 || len(e.panics) > 0 || len(rets) != 1 {
 					results[ci].bad = append(results[ci].bad, fmt.Sprintf("index %d: %s", bits, strings.Join(append(append([]string{}, e.errs...), e.panics...), "; ")+ifs(len(rets) != 1, fmt.Sprintf(" (%d return paths)", len(rets)))))
